@@ -288,10 +288,12 @@ func init() {
 					continue
 				}
 				var longHost, longURL []Req
+				longTail := ""
 				for j := 0; j < 12 && (len(longHost) < 1 || len(longURL) < 2); j++ {
 					r := coupledReq(g, Pick(g, lines))
 					if r.Kind == "host" && len(longHost) < 1 {
-						r.Hostname = strings.Repeat(strings.Repeat(Pick(g, []string{"a", "b1", "x-y"}), 60)[:50+g.Intn(10)]+".", 80+g.Intn(4)) + r.Hostname
+						longTail = r.Hostname
+						r.Hostname = strings.Repeat(strings.Repeat(Pick(g, []string{"0", "07", "0-7"}), 60)[:50+g.Intn(10)]+".", 80+g.Intn(4)) + r.Hostname
 						longHost = append(longHost, r)
 					} else if r.Kind == "url" && len(longURL) < 2 {
 						if k := strings.Index(r.URL, "://"); k >= 0 {
@@ -306,7 +308,16 @@ func init() {
 					}
 				}
 				if len(longHost) > 0 {
-					emit("engine\t" + encodeStorage(ls) + "\t" + encodeReqs(longHost))
+					// on a small storage without "*" and regular-expression rules (the model's backtracking matcher is
+					// quadratic on those for subjects of this length); the rule the request is coupled to comes first
+					var small []string
+					for _, l := range lines {
+						if !strings.Contains(l, "*") && !strings.HasPrefix(strings.TrimPrefix(l, "@@"), "/") && len(small) < 8 {
+							small = append(small, l)
+						}
+					}
+					small = append([]string{"||" + longTail + "^", longTail + "^$important"}, small...)
+					emit("engine\t" + encodeStorage([]listSpec{{id: 1, content: strings.Join(small, "\n") + "\n"}}) + "\t" + encodeReqs(longHost))
 				}
 				if len(longURL) > 0 {
 					emit("engine\t" + encodeStorage(ls) + "\t" + encodeReqs(longURL))
